@@ -96,6 +96,16 @@ def one(ctx, data, meta, html, tmpdir, rng, edits=True):
                                 if isinstance(r_.tag, str) and r_.get('TargetMode') == 'External' and rng.random() < 0.5: r_.set('Target', 'http://edited/%d' % rng.randrange(1000))
                             expect[f._rels_path] = etree.tostring(re_)
                         expect[f.path] = etree.tostring(root)
+                    # the relationships of parts that are not content parts (comments, the package root, custom XML) can be edited too
+                    for f in rd.files:
+                        if f.path in seen or f.Type == 'relationships': continue
+                        seen.add(f.path)
+                        try: re_ = f.rels_element
+                        except Exception: re_ = None
+                        if re_ is not None and len(re_):
+                            for r_ in re_:
+                                if isinstance(r_.tag, str) and r_.get('TargetMode') == 'External': r_.set('Target', 'http://edited-nc/%d' % rng.randrange(1000)); ctx.count('edited relationship of a non-content part')
+                            expect[f._rels_path] = etree.tostring(re_)
                     rd.save(out3)
                 z3 = zipfile.ZipFile(out3)
                 for n, want in expect.items():
@@ -133,6 +143,14 @@ def run(ctx):
                 if m:
                     rel = rel.replace('<Relationship ', f'<Relationship Id="rIdT" Type="http://example.com/relationships/pageTemplate" Target="{m.group(1)}"/><Relationship ', 1)
                     pkg.set('word/_rels/document.xml.rels', rel); ctx.count('part related under two types')
+            names_ = [m for m, _ in pkg.members]
+            if 'word/comments.xml' in names_ and 'word/_rels/comments.xml.rels' not in names_ and rng.random() < 0.7:
+                from gen.docgen import rels_xml
+                pkg.add('word/_rels/comments.xml.rels', rels_xml([('rId9', 'hyperlink', 'http://in-a-comment/', True)]))
+            if rng.random() < 0.25:
+                # archivers other than Word store explicit directory entries
+                dirs = sorted({n[:i + 1] for n, _ in pkg.members for i, ch in enumerate(n) if ch == '/'})
+                pkg.members = [(d, b'') for d in dirs if rng.random() < 0.8] + pkg.members; ctx.count('archive with directory entries')
             data = pkg.to_bytes(rng=rng)
             one(ctx, data, meta, rng.random() < 0.5, tmpdir, rng)
             if ctx.evaluations % 15 == 1: ctx.sample({'members': [m for m, _ in pkg.members]})
